@@ -16,16 +16,16 @@ Values (trees): ['N'] ['B',b] ['I',str] ['F',hex] ['S',s] ['Y',hex] ['A',hex] ['
 """
 import ast, json, re, symtable
 
-LEAVES = ['str', 'int', 'float', 'bool', 'none', 'bytes', 'bytearray', 'uuid', 'decimal', 'path',
+LEAVES = ['str', 'int', 'float', 'bool', 'none', 'nonebare', 'bytes', 'bytearray', 'uuid', 'decimal', 'path',
           'date', 'time', 'datetime', 'timedelta', 'any']
 ENUMS = {'Color': [('RED', 'r'), ('GREEN', 'g'), ('BLUE', 'b')], 'Num': [('ONE', 1), ('TWO', 2), ('TEN', 10)]}
 SEQ_TAG = {'list': 'L', 'tuple': 'T', 'set': 'E', 'frozenset': 'Z', 'deque': 'Q'}
 TAG_SEQ = {v: k for k, v in SEQ_TAG.items()}
 COQ_KIND = {'list': 'KList', 'tuple': 'KTuple', 'set': 'KSet', 'frozenset': 'KFrozen', 'deque': 'KDeque'}
-COQ_LEAF = {'str': 'LStr', 'int': 'LInt', 'float': 'LFloat', 'bool': 'LBool', 'none': 'LNone', 'bytes': 'LBytes',
+COQ_LEAF = {'str': 'LStr', 'int': 'LInt', 'float': 'LFloat', 'bool': 'LBool', 'none': 'LNone', 'nonebare': 'LNone', 'bytes': 'LBytes',
             'bytearray': 'LBytearray', 'uuid': 'LUUID', 'decimal': 'LDecimal', 'path': 'LPath', 'date': 'LDate',
             'time': 'LTime', 'datetime': 'LDatetime', 'timedelta': 'LTimedelta', 'any': 'LAny'}
-PY_LEAF = {'str': 'str', 'int': 'int', 'float': 'float', 'bool': 'bool', 'none': 'None', 'bytes': 'bytes',
+PY_LEAF = {'str': 'str', 'int': 'int', 'float': 'float', 'bool': 'bool', 'none': 'type(None)', 'nonebare': 'None', 'bytes': 'bytes',
            'bytearray': 'bytearray', 'uuid': 'UUID', 'decimal': 'Decimal', 'path': 'Path', 'date': 'date',
            'time': 'time', 'datetime': 'datetime', 'timedelta': 'timedelta', 'any': 'Any'}
 FIELD_NAMES = ['alpha', 'beta_val', 'gamma2', 'delta_my_key', 'eps', 'zeta_aa9', 'eta_bb', 'theta']
@@ -131,28 +131,30 @@ def keyseq_free(t, inkey, model):
 
 
 # ---------------------------------------------------------------------------------- Python source
-def py_ann(t, model):
+def py_ann(t, model, defined=None):
+    """annotation source; a dataclass not yet defined at this point is a forward reference (string)"""
     k = t['k']
     if k == 'leaf':
         l = t['l']
         return l[5:] if l.startswith('enum:') else PY_LEAF[l]
     if k == 'seq':
-        inner = py_ann(t['t'], model)
+        inner = py_ann(t['t'], model, defined)
         return 'tuple[%s, ...]' % inner if t['kind'] == 'tuple' else '%s[%s]' % (t['kind'], inner)
     if k == 'tuple':
-        return 'tuple[%s]' % ', '.join(py_ann(x, model) for x in t['ts'])
+        return 'tuple[%s]' % ', '.join(py_ann(x, model, defined) for x in t['ts'])
     if k == 'dict':
-        return '%s[%s, %s]' % ('defaultdict' if t['dd'] else 'dict', py_ann(t['kt'], model), py_ann(t['vt'], model))
+        return '%s[%s, %s]' % ('defaultdict' if t['dd'] else 'dict', py_ann(t['kt'], model, defined), py_ann(t['vt'], model, defined))
     if k == 'opt':
-        return 'Optional[%s]' % py_ann(t['t'], model)
+        return 'Optional[%s]' % py_ann(t['t'], model, defined)
     if k == 'union':
-        return 'Union[%s]' % ', '.join(py_ann(x, model) for x in t['ts'])
+        return 'Union[%s]' % ', '.join(py_ann(x, model, defined) for x in t['ts'])
     if k == 'lit':
         return 'Literal[%s]' % ', '.join(repr(v) for v in t['vs'])
     if k in ('named', 'typed'):
         return t['name']
     if k == 'data':
-        return repr(model['classes'][t['c']]['name'])       # forward reference
+        n = model['classes'][t['c']]['name']
+        return n if defined is not None and n in defined else repr(n)       # forward reference
     raise ValueError(k)
 
 
@@ -180,29 +182,102 @@ DEFAULT_SRC = {'none': ' = None', 'int0': ' = 0', 'str0': " = ''", 'list': ' = f
 DEFAULT_TREE = {'none': ['N'], 'int0': ['I', '0'], 'str0': ['S', ''], 'list': ['L', []], 'dict': ['D', None, []]}
 
 
-def model_source(model):
-    """Python source of the model.  `from __future__ import annotations` is NOT used for the
-    class bodies' semantics: annotations are strings anyway and the library evaluates them."""
-    out = [PREAMBLE.replace('from __future__ import annotations\n', '')]
-    for n, fs in model['named'].items():
-        out.append('class %s(NamedTuple):' % n)
-        for lbl, t in fs:
-            out.append('    %s: %s' % (lbl, py_ann(t, model)))
-    for n, d in model['typed'].items():
-        out.append('class %s(TypedDict):' % n)
-        for k, t in d['req']:
-            out.append('    %s: %s' % (k, py_ann(t, model)))
-        for k, t in d['opt']:
-            out.append('    %s: NotRequired[%s]' % (k, py_ann(t, model)))
-        if not d['req'] and not d['opt']:
-            out.append('    pass')
-    for c in model['classes']:
-        out.append('@dataclass')
-        out.append('class %s:' % c['name'])
-        if not c['fields']:
-            out.append('    pass')
+def class_order(model):
+    """emission order: a class is emitted after the classes it references when possible
+    (references that cannot be ordered — recursion — become forward-reference strings)"""
+    n = len(model['classes'])
+    deps = {}
+    for i, c in enumerate(model['classes']):
+        d = set()
         for f in c['fields']:
-            out.append('    %s: %s%s' % (f['name'], py_ann(f['ty'], model), DEFAULT_SRC.get(f.get('default'), '')))
+            for s in subtypes(f['ty'], model):
+                if s['k'] == 'data':
+                    d.add(s['c'])
+        deps[i] = d
+    order, done = [], set()
+
+    def visit(i, stack):
+        if i in done or i in stack:
+            return
+        for j in sorted(deps[i]):
+            visit(j, stack | {i})
+        done.add(i)
+        order.append(i)
+
+    for i in range(n):
+        visit(i, frozenset())
+    return order
+
+
+def helper_deps(model, kind, name):
+    items = model['named'][name] if kind == 'named' else model['typed'][name]['req'] + model['typed'][name]['opt']
+    out = set()
+    for _, t in items:
+        for s in subtypes(t, model, into_helpers=False):
+            if s['k'] in ('data', 'named', 'typed'):
+                out.add((s['k'], s['c'] if s['k'] == 'data' else s['name']))
+    return out
+
+
+def model_source(model):
+    """Python source of the model: NamedTuple / TypedDict / dataclass definitions in dependency
+    order; only recursive references are forward-reference strings."""
+    out = [PREAMBLE.replace('from __future__ import annotations\n', '')]
+    defined = set()
+    emitted = set()
+    pending = [('named', n) for n in model['named']] + [('typed', n) for n in model['typed']] + \
+              [('data', i) for i in class_order(model)]
+
+    def emit(item):
+        kind, x = item
+        if kind == 'named':
+            out.append('class %s(NamedTuple):' % x)
+            for lbl, t in model['named'][x]:
+                out.append('    %s: %s' % (lbl, py_ann(t, model, defined)))
+        elif kind == 'typed':
+            d = model['typed'][x]
+            out.append('class %s(TypedDict):' % x)
+            for k, t in d['req']:
+                out.append('    %s: %s' % (k, py_ann(t, model, defined)))
+            for k, t in d['opt']:
+                out.append('    %s: NotRequired[%s]' % (k, py_ann(t, model, defined)))
+            if not d['req'] and not d['opt']:
+                out.append('    pass')
+        else:
+            c = model['classes'][x]
+            out.append('@dataclass')
+            out.append('class %s:' % c['name'])
+            if not c['fields']:
+                out.append('    pass')
+            for f in c['fields']:
+                out.append('    %s: %s%s' % (f['name'], py_ann(f['ty'], model, defined), DEFAULT_SRC.get(f.get('default'), '')))
+            defined.add(c['name'])
+        emitted.add(item)
+
+    def deps_of(item):
+        kind, x = item
+        if kind == 'data':
+            d = set()
+            for f in model['classes'][x]['fields']:
+                for s in subtypes(f['ty'], model, into_helpers=False):
+                    if s['k'] in ('named', 'typed'):
+                        d.add((s['k'], s['name']))
+            return d
+        return helper_deps(model, kind, x)
+
+    # repeatedly emit items whose (non-recursive) dependencies are emitted; break cycles in order
+    while pending:
+        progress = False
+        for item in list(pending):
+            need = {d for d in deps_of(item) if d not in emitted and d != item}
+            if item[0] == 'data':
+                need = {d for d in need if d[0] != 'data'}      # dataclass refs may be forward strings
+            if not need:
+                emit(item)
+                pending.remove(item)
+                progress = True
+        if not progress:
+            emit(pending.pop(0))
     return '\n'.join(out) + '\n'
 
 
@@ -524,11 +599,11 @@ def py_index(v, ix):
 def walk_pairs(t, o, v, model, out, depth=0):
     """Collect every (leaf, in_optional, value) the loader of annotation t may convert when given v
     (a superset: no early termination).  out: dict key -> (leaf, inopt, tree)."""
-    if v is None or depth > 12:
+    if v is None or depth > 80:
         return
     k = t['k']
     if k == 'leaf':
-        if t['l'] not in ('none', 'any'):
+        if t['l'] not in ('none', 'nonebare', 'any'):
             out.setdefault(json.dumps([t['l'], o, v], sort_keys=True), (t['l'], o, v))
     elif k == 'seq':
         for x in py_iter(v) or []:
@@ -559,6 +634,39 @@ def walk_pairs(t, o, v, model, out, depth=0):
         walk_class(t['c'], v, model, out, depth + 1)
 
 
+def all_subvalues(v, out):
+    out.append(v)
+    tag = v[0]
+    if tag in TAG_SEQ:
+        for x in v[1]:
+            all_subvalues(x, out)
+    elif tag == 'M':
+        for x in v[2]:
+            all_subvalues(x, out)
+    elif tag == 'D':
+        for k, x in v[2]:
+            all_subvalues(k, out)
+            all_subvalues(x, out)
+    elif tag == 'S' and 0 < len(v[1]) <= 6:
+        for c in v[1]:
+            out.append(['S', c])
+
+
+def walk_generous(t, v, model, out):
+    """every leaf of annotation t x every sub-value of v (used where the generated code is known to
+    read the wrong position, so that the FAITHFUL model finds an oracle answer for what the code does)"""
+    leaves = set()
+    for s in subtypes(t, model):
+        if s['k'] == 'leaf' and s['l'] not in ('none', 'nonebare', 'any'):
+            leaves.add(s['l'])
+    vals = []
+    all_subvalues(v, vals)
+    for l in sorted(leaves):
+        for x in vals:
+            for o in (False, True):
+                out.setdefault(json.dumps([l, o, x], sort_keys=True), (l, o, x))
+
+
 def walk_class(c, v, model, out, depth=0, keys=None):
     if v is None or v[0] != 'D':
         return
@@ -569,6 +677,8 @@ def walk_class(c, v, model, out, depth=0, keys=None):
             x = py_index(v, key)
             if x is not None:
                 walk_pairs(f['ty'], False, x, model, out, depth + 1)
+                if f.get('generous'):
+                    walk_generous(f['ty'], x, model, out)
                 break
 
 
@@ -658,3 +768,45 @@ def unbound_positional(src):
 
     rec(symtable.symtable(src, '<generated>', 'exec'))
     return sorted(bad)
+
+
+# ---------------------------------------------------------------------------------- running the model
+def coq_shards(workdir, imports, shards, jobs=8, timeout=900):
+    """Evaluate shards = [(prelude, [expr, ...]), ...] (each expr : pstr) with one coqc process per
+    shard; returns the list of result lists.  Same protocol as lib/coqrun.coq_eval (results come back
+    hex-encoded inside one string literal), but every shard carries its own prelude and shards are
+    kept small: reading back / printing one huge string literal is super-linear in coqc."""
+    import os, re, subprocess, concurrent.futures as cf
+    from lib import coqrun
+    os.makedirs(workdir, exist_ok=True)
+
+    def one(args):
+        idx, (prelude, exprs) = args
+        path = os.path.join(workdir, 'Shard_%d.v' % idx)
+        with open(path, 'w') as f:
+            f.write('From DW Require Import %s.\n' % ' '.join(imports))
+            if prelude:
+                f.write(prelude + '\n')
+            f.write('Definition results : list pstr := [\n' + ';\n'.join(exprs) + '\n].\n')
+            f.write('Eval vm_compute in (out (join (S ";") (map hex results))).\n')
+        try:
+            p = subprocess.run(['coqc'] + coqrun.QFLAGS + [path], capture_output=True, text=True, timeout=timeout,
+                               cwd=workdir, preexec_fn=coqrun._unlimit_stack)
+        except subprocess.TimeoutExpired:
+            raise coqrun.CoqError('coqc timeout on shard %d' % idx)
+        if p.returncode != 0:
+            raise coqrun.CoqError('coqc failed on shard %d: %s' % (idx, (p.stderr or p.stdout)[-2000:]))
+        m = re.search(r'=\s*"([0-9a-f;]*)"', p.stdout)
+        if not m:
+            raise coqrun.CoqError('cannot parse coqc output: %r' % p.stdout[:500])
+        parts = m.group(1).split(';') if exprs else []
+        out = [bytes.fromhex(x).decode('utf-8', 'surrogateescape') for x in parts]
+        if len(out) != len(exprs):
+            raise coqrun.CoqError('shard %d: %d results for %d cases' % (idx, len(out), len(exprs)))
+        return idx, out
+
+    res = {}
+    with cf.ThreadPoolExecutor(max_workers=jobs) as ex:
+        for idx, out in ex.map(one, list(enumerate(shards))):
+            res[idx] = out
+    return [res[i] for i in range(len(shards))]
